@@ -619,18 +619,18 @@ func main() {
 							case "Pool":
 								resets = append(resets, "verifsim.DrainPools() // "+n.Name)
 								continue
-							case "Once", "Mutex", "RWMutex", "WaitGroup":
-								continue // no observable history once quiescent (a used Once is reported below)
+							case "Once":
+								// what it guards is restored to its state after package initialisation, so it has to run again
+								resets = append(resets, "verifsim.Zero(&"+n.Name+")")
+								continue
+							case "Mutex", "RWMutex", "WaitGroup":
+								continue // no observable history once quiescent
 							}
 						}
-						if written[obj] && len(vs.Values) == 0 {
-							// plain package-level state assigned at run time and starting from the zero value
-							resets = append(resets, "verifsim.Zero(&"+n.Name+")")
-							continue
-						}
 						if written[obj] {
-							if _, isMap := obj.Type().Underlying().(*types.Map); !isMap {
-								// initialised package-level state that is written at run time: restore the initial value
+							if _, isMap := obj.Type().Underlying().(*types.Map); !isMap || len(vs.Values) == 0 {
+								// package-level state that is written at run time: restore the value it had when package
+								// initialisation finished (its initialiser, or what an init function computed; the zero value otherwise)
 								resets = append(resets, "SNAPSHOT "+n.Name)
 								continue
 							}
